@@ -125,6 +125,9 @@ class Ctx:
                 self.violation("deviation %s observed but not listed as a known finding" % kid, rp)
         if v.mismatches:
             real = [m for m in v.mismatches if m]
+            if not real:
+                rp = self.write_replay("%s-unparsed" % (label or "trace"), [], "TLC counted %d mismatches whose MISMATCH lines could not be parsed" % len(v.mismatches))
+                self.violation("%d event(s) rejected by %s in trace %s (mismatch lines unparsed)" % (len(v.mismatches), trace_module, label), rp)
             groups = {}
             for m in real:
                 try:
